@@ -5,6 +5,7 @@ from values import *
 from harnesses.hlib import *
 from models_rand import RngObj
 from models_coll import map_insert
+from harnesses.c14 import mk_enum
 
 PROPERTY = 'C15'
 VALIDATE_MODELS = ['utf8']
@@ -14,19 +15,25 @@ OPTS = {'quick': {'hash_order': 'insertion'}, 'thorough': {'hash_order': 'insert
 BOUNDS = {
     'quick': 'words of 0-2 symbolic characters (widths 1 and 3), every non-empty subset of {insert, delete, replace, swap} '
              'that is a single kind or all four, every exclusion subset, context tables keyed by the contexts of the word '
-             'itself (each entry present or absent) with edit lists [x] and [yz, empty string], can_delete / can_swap '
+             'itself (each entry present or absent) with edit lists [x], [yz, empty string] and (grapheme mode) one 2-code-point grapheme cluster, can_delete / can_swap '
              'arbitrary (fresh Boolean per call), full_delete both, every random stream; chains of 2 edits for 1-character '
-             'words; code-point mode and grapheme mode over ASCII letters',
+             'words; code-point mode and grapheme mode over ASCII letters; the corrupt_spelling driver (artificial mode, delete + swap) on '
+             'the texts ab, abc, a with symbolic seed and per-character edit probability',
     'thorough': 'words of 0-3 characters, all 15 kind subsets, chains of 2 edits up to 2 characters',
 }
-OUTSIDE = ['edit strings that merge with their neighbours into one grapheme cluster (combining marks) in grapheme mode',
-           'exclusion indices outside the word', 'the corrupt_spelling driver (regex word splitting, misspelling files)',
+OUTSIDE = ['edit strings that merge with their neighbours into one grapheme cluster in grapheme mode (an edit string that is itself a multi-code-point cluster is inside)',
+           'exclusion indices outside the word', 'the realistic / mixed modes of the corrupt_spelling driver (misspelling files, character table)',
            'HashSet iteration order fixed to insertion order (results compared as sets)']
 ASSUMPTIONS = ['rand modelled as every stream', 'can_delete / can_swap are arbitrary Boolean functions']
 KNOWN_MATCHERS = {}
 VALIDATION_ALLOW_FORKS = True
 KINDS = ['insert', 'delete', 'replace', 'swap']
-TABLES = [(['x'], [1.0]), (['yz', ''], [0.5, 0.5])]
+TABLES = [(['x'], [1.0]), (['yz', ''], [0.5, 0.5]), (['e\u0301'], [1.0])]   # table 2: one 2-code-point grapheme cluster
+
+
+def tlen(t, g):
+    """length of an edit string in characters of the mode (the cluster e + U+0301 is one grapheme)"""
+    return 1 if (g and len(t) == 2 and t[1].v == 0x301) else len(t)
 
 
 def shapes(tier):
@@ -44,9 +51,113 @@ def shapes(tier):
                         continue
                     for tbl in range(len(TABLES)):
                         chain = 2 if (n <= (1 if tier == 'quick' else 2) and len(ks) > 1) else 1
+                        if tbl == 2:
+                            # the multi-code-point cluster only matters in grapheme mode and for insert / replace
+                            if not g or not ({'insert', 'replace'} & set(ks)):
+                                continue
+                            chain = 1
                         out.append({'widths': list(ws), 'kinds': ks, 'g': g, 'table': tbl, 'chain': chain})
+    for word in (['ab', 'abc', 'a'] if tier == 'quick' else ['ab', 'abc', 'a', 'abcd', 'ab cd']):
+        for fd in (False, True):
+            out.append({'part': 'driver', 'text': word, 'full_delete': fd, 'widths': [1] * len(word), 'kinds': ['delete', 'swap'], 'chain': 0})
     out.sort(key=lambda s: -(len(s['widths']) * 3 + len(s['kinds']) + s['chain']))
     return out
+
+
+def chain_reachable(word, full_delete):
+    """Reference for the corrupt_spelling chain with delete / swap on alphabetic words: every word reachable by 1..len(word)
+    edits where each edit avoids the positions recorded by the previous ones (exclusion set handed on along the chain)."""
+    n0 = len(word)
+    seen = set()
+    res = set()
+
+    def step(w, excl, left, done):
+        if done >= 1:
+            res.add(w)        # num_edits may be any number in 1..n0
+        if left == 0:
+            return
+        key = (w, frozenset(excl), left, done)
+        if key in seen:
+            return
+        seen.add(key)
+        n = len(w)
+        step(w, excl, left - 1, done + 1)        # an edit kind without candidates leaves the word unchanged
+        if full_delete or n > 1:
+            for i in range(n):
+                if i not in excl:
+                    step(w[:i] + w[i + 1:], {(e - 1 if e > i else e) for e in excl}, left - 1, done + 1)
+        for i in range(n - 1):
+            if i not in excl and i + 1 not in excl:
+                step(w[:i] + w[i + 1] + w[i] + w[i + 2:], set(excl) | {i, i + 1}, left - 1, done + 1)
+    step(word, set(), n0, 0)
+    return res
+
+
+def run_driver(ctx, shape, opts):
+    """corrupt_spelling (artificial mode, delete + swap): edit_word is chained with the returned exclusion set"""
+    m = ctx.m
+    seed = ctx.in_int('seed', 'u64')
+    charp = ctx.in_fp('char_p')
+    if ctx.concrete is None:
+        ctx.assume(z3.And(z3.fpGEQ(charp.v, z3.FPVal(0.0, z3.Float64())), z3.fpLEQ(charp.v, z3.FPVal(1.0, z3.Float64()))))
+    calls = []
+
+    entered = []
+
+    def on_entry(c, args):
+        ex = c.m.peel(args[7])      # read at entry: the set is moved into the function and updated in place
+        entered.append(None if ex.variant == 'None' else {e[0].v for e in c.m.peel(ex.fields[0]).entries})
+
+    def observe(c, args, ret):
+        rs = {e[0].v for e in c.m.peel(ret.fields[1]).entries}
+        calls.append((c.m.peel(args[0]).concrete(), entered.pop(), c.m.peel(ret.fields[0]).as_str().concrete(), rs))
+    m.entry_observers['edit_word'] = on_entry
+    m.observers['edit_word'] = observe
+    ctx.unseeded_draws = 0
+    ctx.rng_seed_terms = []
+    try:
+        cfg = mk_enum(m, 'PreprocessingFnConfig', 'SpellingCorruption', [mk_enum(m, 'Part', 'Input'), FP(1.0, 'f64'), shape['full_delete'],
+                                                                    mk_enum(m, 'SpellingCorruptionMode', 'Artificial', [charp, FP(1.0, 'f64'), NONE()])])
+        pf = m.call('preprocessing', cfg)
+        item = Struct('TrainData', [m.new_string(shape['text']), m.new_string('t')], ['input', 'target'])
+        info = Struct('TextDataInfo', [seed, Int(0, 'usize'), MapObj('HashMap')], ['seed', 'file_idx', 'marks'])
+        r = m.call_value(pf, [item, info])
+    finally:
+        m.observers.pop('edit_word', None)
+        m.entry_observers.pop('edit_word', None)
+    ctx.require(r.variant == 'Ok', 'spelling corruption succeeds')
+    got = m.peel(r.fields[0].fields[0]).get('input').as_str().concrete()
+    if ctx.outputs is not None:
+        ctx.outputs['ok'] = True
+    ctx.require(got is not None and bool(calls), 'every word is edited at least once when the corruption probability is 1')
+    # the chain: the first call of a word starts from the empty set, every later call receives what the previous returned
+    words = shape['text'].split(' ')
+    k = 0
+    outw = []
+    for w in words:
+        prev = None
+        cur = w
+        first = True
+        while k < len(calls) and calls[k][0] == cur:
+            wi, ex, wo, rs = calls[k]
+            if first:
+                ctx.require(not ex, 'the first edit of a word starts from an empty exclusion set')
+            else:
+                ctx.require((ex or set()) == prev, 'corrupt_spelling hands the exclusion set returned by one edit to the next edit of the word')
+            prev, cur, first = rs, wo, False
+            k += 1
+            if len(cur) == 0:
+                break
+        ctx.require(not first, 'every word is edited at least once when the corruption probability is 1')
+        ctx.require(cur in chain_reachable(w, shape['full_delete']), 'chained edits never touch a position that an earlier edit of the chain produced')
+        if cur:
+            outw.append(cur)
+    ctx.require(k == len(calls), 'edit_word is called only for the words of the text, in order')
+    ctx.require(got == ' '.join(outw), 'the result is the edited words joined by single spaces (fully deleted words dropped)')
+    ctx.require(ctx.unseeded_draws == 0, 'no randomness from an unseeded generator')
+    for sd in ctx.rng_seed_terms:
+        ctx.require(m.eq(sd, seed), 'the generator is seeded with info.seed')
+    ctx.sample = {'driver': shape['text'], 'result': got, 'edits': len(calls)}
 
 
 BOW = '<bow>'
@@ -86,7 +197,7 @@ def build_tables(ctx, chars, tbl, present_ins, present_rep):
     return (Struct('InsertEdits', [ins], ['insertions']), Struct('ReplaceEdits', [rep], ['replacements']))
 
 
-def candidates(word, excl, kinds, tbl):
+def candidates(word, excl, kinds, tbl, g=False):
     """All results one edit may legally produce: list of (kind, new_word(list of items), new_excl(set))."""
     n = len(word)
     out = []
@@ -96,7 +207,7 @@ def candidates(word, excl, kinds, tbl):
             if idx in excl or (idx > 0 and idx - 1 in excl):
                 continue
             for t in texts:
-                ne = {(e + len(t) if e >= idx else e) for e in excl} | set(range(idx, idx + len(t)))
+                ne = {(e + tlen(t, g) if e >= idx else e) for e in excl} | set(range(idx, idx + tlen(t, g)))
                 out.append(('insert', word[:idx] + t + word[idx:], ne))
     if 'delete' in kinds:
         for idx in range(n):
@@ -108,7 +219,7 @@ def candidates(word, excl, kinds, tbl):
             if idx in excl:
                 continue
             for t in texts:
-                ne = {(e + len(t) - 1 if e > idx else e) for e in excl} | set(range(idx, idx + len(t)))
+                ne = {(e + tlen(t, g) - 1 if e > idx else e) for e in excl} | set(range(idx, idx + tlen(t, g)))
                 out.append(('replace', word[:idx] + t + word[idx + 1:], ne))
     if 'swap' in kinds:
         for idx in range(n - 1):
@@ -119,6 +230,8 @@ def candidates(word, excl, kinds, tbl):
 
 
 def run(ctx, shape, opts):
+    if shape.get('part') == 'driver':
+        return run_driver(ctx, shape, opts)
     m = ctx.m
     g = shape['g']
     kinds = shape['kinds']
@@ -165,11 +278,12 @@ def run(ctx, shape, opts):
         outs.append([to_py(ctx, nw), sorted(ne)])
         # ---- oracle
         alts = [m.conj([chars_equal(ctx, nwc, word), ne == cur_excl])]
-        for kind, cw, ce in candidates(word, cur_excl, kinds, tbl):
+        for kind, cw, ce in candidates(word, cur_excl, kinds, tbl, g):
             alts.append(m.conj([chars_equal(ctx, nwc, cw), ne == ce]))
         ctx.require(m.disj(alts), 'result is the word unchanged or exactly one edit of an enabled kind at an unprotected '
                                   'position, with the exclusion set re-indexed plus the edited positions')
-        ctx.require(all(0 <= e < len(nwc) for e in ne), 'returned exclusion indices lie inside the new word')
+        nunits = len(nwc) - (1 if (g and tbl == 2 and any(isinstance(c.v, int) and c.v == 0x301 for c in nwc)) else 0)
+        ctx.require(all(0 <= e < nunits for e in ne), 'returned exclusion indices lie inside the new word')
         word = nwc
         cur = m.peel(nw).as_str()
         cur_excl = ne
@@ -208,6 +322,8 @@ def _native_run(native, shape, inputs, seed):
 
 
 def native_outputs(native, shape, inputs):
+    if shape.get('part') == 'driver':
+        return {'ok': True}
     k, v = native_ok(_native_run(native, shape, inputs, inputs.get('native_seed', 0)))
     if k != 'ok':
         return {'panic': v}
@@ -215,6 +331,22 @@ def native_outputs(native, shape, inputs):
 
 
 def concrete_check(native, inputs, shape):
+    if shape.get('part') == 'driver':
+        # the real driver over many seeds: every result must be reachable by a chain that respects the exclusion sets
+        failed = []
+        for cp in (1.0, 0.5):
+            k, v = native_ok(native.call('corrupt_spelling_run', text=shape['text'], full_delete=shape['full_delete'], char_p=cp,
+                                         seeds=list(range(400)), _timeout=60.0))
+            if k != 'ok':
+                return ['no panic']
+            ok_sets = [chain_reachable(w, shape['full_delete']) for w in shape['text'].split(' ')]
+            import itertools as _it
+            allowed = {' '.join(x for x in combo if x) for combo in _it.product(*ok_sets)}
+            if any(o not in allowed for o in v):
+                failed = ['chained edits never touch a position that an earlier edit of the chain produced',
+                          'corrupt_spelling hands the exclusion set returned by one edit to the next edit of the word']
+                break
+        return failed
     kinds, tbl = shape['kinds'], shape['table']
     failed = set()
     for seed in range(48):
@@ -226,13 +358,13 @@ def concrete_check(native, inputs, shape):
         for nw, ne in v:
             ne = set(ne)
             ok = (nw == [c.v for c in word] and ne == excl)
-            for kind, cw, ce in candidates(word, excl, kinds, tbl):
+            for kind, cw, ce in candidates(word, excl, kinds, tbl, shape['g']):
                 if nw == [c.v for c in cw] and ne == ce:
                     ok = True
             if not ok:
                 failed.add('result is the word unchanged or exactly one edit of an enabled kind at an unprotected '
                            'position, with the exclusion set re-indexed plus the edited positions')
-            if not all(0 <= e < len(nw) for e in ne):
+            if not all(0 <= e < len(nw) - (1 if (shape['g'] and tbl == 2 and 0x301 in nw) else 0) for e in ne):
                 failed.add('returned exclusion indices lie inside the new word')
             word = [Int(c, 'char') for c in nw]
             excl = ne
